@@ -54,6 +54,7 @@ from psyclone.psyir.nodes.codeblock import CodeBlock
 from psyclone.psyir.nodes.directive import (StandaloneDirective,
                                             RegionDirective)
 from psyclone.psyir.nodes.intrinsic_call import IntrinsicCall
+from psyclone.psyir.nodes.loop import Loop
 from psyclone.psyir.nodes.psy_data_node import PSyDataNode
 from psyclone.psyir.nodes.routine import Routine
 from psyclone.psyir.nodes.schedule import Schedule
@@ -102,6 +103,21 @@ class ACCRegionDirective(ACCDirective, RegionDirective, metaclass=abc.ABCMeta):
                 f"within OpenACC regions but found "
                 f"{[type(node).__name__ for node in data_nodes]} within a "
                 f"region enclosed by an '{type(self).__name__}'")
+
+    def _validate_not_in_compute_region(self):
+        '''
+        Check that this directive is not within an OpenACC parallel or
+        kernels region (compute and data constructs cannot be nested inside
+        a compute construct).
+
+        :raises GenerationError: if this directive has an ACCParallelDirective
+            or ACCKernelsDirective as an ancestor.
+
+        '''
+        if self.ancestor((ACCParallelDirective, ACCKernelsDirective)):
+            raise GenerationError(
+                f"{type(self).__name__} cannot be nested inside an OpenACC "
+                f"parallel or kernels region.")
 
     @property
     def signatures(self):
@@ -291,6 +307,18 @@ class ACCParallelDirective(ACCRegionDirective):
     def __init__(self, default_present=True, **kwargs):
         super().__init__(**kwargs)
         self.default_present = default_present
+
+    def validate_global_constraints(self):
+        '''
+        Perform validation checks that can only be done at code-generation
+        time.
+
+        :raises GenerationError: if this directive is within an OpenACC
+            parallel or kernels region.
+
+        '''
+        self._validate_not_in_compute_region()
+        super().validate_global_constraints()
 
     def gen_code(self, parent):
         '''
@@ -534,6 +562,21 @@ class ACCLoopDirective(ACCRegionDirective):
                 f"in the Schedule or the routine must contain an "
                 f"ACCRoutineDirective.")
 
+        # A loop directive must be immediately followed by a loop and, if
+        # there is a collapse clause, by as many perfectly nested loops as
+        # the collapse value.
+        cursor = self.dir_body.children[0] if self.dir_body.children else None
+        for depth in range(self._collapse if self._collapse else 1):
+            if (cursor is None or len(cursor.parent.children) != 1 or
+                    not isinstance(cursor, Loop)):
+                raise GenerationError(
+                    f"ACCLoopDirective must be followed by as many "
+                    f"immediately nested loops as its collapse clause "
+                    f"specifies (or one if there is none) but '{self}' is "
+                    f"not at depth {depth}.")
+            cursor = (cursor.loop_body.children[0]
+                      if cursor.loop_body.children else None)
+
         super().validate_global_constraints()
 
     def gen_code(self, parent):
@@ -615,6 +658,18 @@ class ACCKernelsDirective(ACCRegionDirective):
     def __init__(self, children=None, parent=None, default_present=True):
         super().__init__(children=children, parent=parent)
         self._default_present = default_present
+
+    def validate_global_constraints(self):
+        '''
+        Perform validation checks that can only be done at code-generation
+        time.
+
+        :raises GenerationError: if this directive is within an OpenACC
+            parallel or kernels region.
+
+        '''
+        self._validate_not_in_compute_region()
+        super().validate_global_constraints()
 
     def __eq__(self, other):
         '''
@@ -706,6 +761,18 @@ class ACCDataDirective(ACCRegionDirective):
         '''
         raise InternalError(
             "ACCDataDirective.gen_code should not have been called.")
+
+    def validate_global_constraints(self):
+        '''
+        Perform validation checks that can only be done at code-generation
+        time.
+
+        :raises GenerationError: if this directive is within an OpenACC
+            parallel or kernels region.
+
+        '''
+        self._validate_not_in_compute_region()
+        super().validate_global_constraints()
 
     @staticmethod
     def _validate_child(position, child):
